@@ -53,7 +53,7 @@ struct Drv {
   log_state: bool,        // walks: log the shadow mapper's state next to every event it is given
   phys_down: Vec<KeyCode>, // keys down on the scripted device (what EVIOCGKEY reports in the full-stack runs)
   stuck: bool, send_failed: bool,
-  nsends: usize, send_fault: usize   // walks: every send_fault-th write is answered EAGAIN (0 = never); the other writes succeed
+  nsends: usize, fault_run: usize, send_fault: usize   // walks: every send_fault-th write is answered EAGAIN (0 = never); the other writes succeed
 }
 
 impl Drv {
@@ -221,7 +221,7 @@ impl ScriptedDriver for Drv {
     let fail = fail || (self.stuck && self.send_failed);
     if fail { self.send_failed = true; }
     self.nsends += 1;
-    let fail = fail || (self.send_fault != 0 && self.nsends % self.send_fault == 0);
+    let fail = fail || (self.send_fault != 0 && self.nsends >= self.send_fault && (self.nsends - self.send_fault) % (self.send_fault + self.fault_run) < self.fault_run);
     rec["evs"] = jevs(evs);
     if self.malformed_write { rec["evs"].as_array_mut().unwrap().push(json!({"t": "?", "k": "malformed write"})); self.malformed_write = false; }
     rec["res"] = json!(if fail { "err" } else { "ok" });
@@ -249,7 +249,7 @@ fn new_drv(layout: &Layout, labels: &[Lbl], fault: usize, sleep: &[String]) -> D
     k_ready: false, t_ready: false, ended: false, log: vec![],
     shadow: Mapper::for_layout(layout), fresh: Mapper::for_layout(layout), layout: layout.clone(), in_tab: false,
     calls: 0, fault, cap: 400 + 20 * labels.len(), sleep: sleep.to_vec(), nsleep: 0, intr_ok: true, arr_k: vec![], arr_t: vec![],
-    malformed_write: false, log_state: false, phys_down: vec![], stuck: true, send_failed: false, nsends: 0, send_fault: 0
+    malformed_write: false, log_state: false, phys_down: vec![], stuck: true, send_failed: false, nsends: 0, fault_run: 1, send_fault: 0
   }
 }
 
@@ -611,7 +611,7 @@ impl WLcg {
 // wakes up (it reads them in one drain), and now and then a signal interrupts the wait in front of a wake-up; the grouping is a
 // function of the seed and the position only, so that a prefix of the history is grouped the same way (replay).
 // sendfault = k: every k-th write is answered EAGAIN (0 = never); a loop that stops at the first one never meets the second.
-fn walk_run(layout: &Layout, history: &[(Option<Event>, Vec<Event>)], noise: u8, wake: u64, sendfault: usize) -> (Sys, std::thread::Result<Result<(), String>>) {
+fn walk_run(layout: &Layout, history: &[(Option<Event>, Vec<Event>)], noise: u8, wake: u64, sendfault: usize, faultrun: usize) -> (Sys, std::thread::Result<Result<(), String>>) {
   let mut labels: Vec<Lbl> = vec![];
   let mut rng = WLcg(wake.wrapping_mul(2654435761).wrapping_add(99991));
   let mut i = 0;
@@ -647,6 +647,7 @@ fn walk_run(layout: &Layout, history: &[(Option<Event>, Vec<Event>)], noise: u8,
   d.log_state = true;
   d.cap = 100 + 12 * labels.len();
   d.send_fault = sendfault;
+  d.fault_run = std::cmp::max(1, faultrun);     // how many writes in a row are answered EAGAIN each time (a consumer that stalls for a while)
   let _ = ScriptedDriver::register_poll(&mut d);
   let (kfd, tfd, wfd) = (new_fd(), new_fd(), new_fd());
   let unknown_code = (1u16..768).rev().find(|c| <KeyCode as FromPrimitive>::from_u16(*c).is_none()).unwrap_or(767);
@@ -660,13 +661,13 @@ fn walk_run(layout: &Layout, history: &[(Option<Event>, Vec<Event>)], noise: u8,
 
 // the same run written as a call trace for LoopTrace.tla
 pub fn walk_via_loop_trace(id: &str, layout: &Layout, history: &[(Option<Event>, Vec<Event>)], noise: u8, wake: u64, out: &mut dyn Write) {
-  let (mut sys, r) = walk_run(layout, history, noise, wake, 0);
+  let (mut sys, r) = walk_run(layout, history, noise, wake, 0, 1);
   for rec in sys.d.log.iter_mut() { if let Some(o) = rec.as_object_mut() { o.remove("st"); } }
   write_trace(id, layout, 0, &[], &sys.d, r, json!({"mode": "sys", "slack": 999, "errtext": false, "noise": noise, "werr": 5}), out);
 }
 
-pub fn walk_via_loop(layout: &Layout, history: &[(Option<Event>, Vec<Event>)], noise: u8, wake: u64, sendfault: usize) -> Vec<Value> {
-  let (sys, r) = walk_run(layout, history, noise, wake, sendfault);
+pub fn walk_via_loop(layout: &Layout, history: &[(Option<Event>, Vec<Event>)], noise: u8, wake: u64, sendfault: usize, faultrun: usize) -> Vec<Value> {
+  let (sys, r) = walk_run(layout, history, noise, wake, sendfault, faultrun);
   // One record per event the loop read, in reading order. What the loop wrote is attributed to the event it belongs to by the
   // call sequence: a write belongs to the event read last - except that a reader which fetched several events ahead of the loop
   // (several reads in a row without a write) is given the benefit of the doubt: a write that is exactly what the shadow mapper
